@@ -3,6 +3,7 @@ from analysis.runner import rule
 from analysis.facts import AnchorError, decode_struct_array
 from analysis import chessref as R
 
+THOROUGH_CONFIGS = ['release', 'nobmi2', 'movegen-alone']
 LEVEL = "proof"
 EXHAUSTIVE = True
 DECIDED = ("R1 the accessor computes SOLUTIONS[((occ & mask) *wrapping factor >> shift) + offset] from the four fields of MOVES_MAGIC[pos]; "
@@ -163,7 +164,9 @@ def r1(ctx):
         idx = eng.binop("Add", eng.binop("Shr", eng.binop("Mul", blockers, f("factor")), f("shift")), ("cast", "u64", f("offset")))
         want = ("adt", "chess_bitboard::BitBoard", "BitBoard", (("index", ("obj", ("static", mod + "::SOLUTIONS")), ("cast", "usize", idx)),))
         rets = {lf.ret for lf in leaves}
-        ok = rets == {want}
+        sol = ("obj", ("static", mod + "::SOLUTIONS"))
+        want_unchecked = ("adt", "chess_bitboard::BitBoard", "BitBoard", (("obj", ("app", "core::slice::<impl [u64]>::get_unchecked::<usize>", (("refv", sol), ("cast", "usize", idx)))),))
+        ok = rets == {want} or rets == {want_unchecked}
         ctx.ob(f"{kind}_moves formula", ok, f"{key} returns {[T.show(r)[:300] for r in rets]}; expected {T.show(want)[:300]}", site=P.body(key).get("def_span"),
                sample={"term": T.show(want)[:200]})
 
